@@ -20,7 +20,7 @@ ASSUMPTIONS = ["NumPy element-wise semantics on float64 arrays is the dense sema
                "results observed through subs/vals/shape (sparse) or data (dense)",
                "stored order of the left operand is F-sorted here (all orders are C06's job; thorough adds reversed/rotated)"]
 BOUNDS = {
-    "quick": "all 3^4 x 3^4 joint value patterns over {0,2,-3} on shapes (4,),(1,4),(2,2),(2,1,2); rhs sparse+dense; "
+    "quick": "all 3^4 x 3^4 joint value patterns (left over {0,2,-3}, right over {0,2,-2}: equal, cancelling, same-sign, opposite-sign pairs) on shapes (4,),(2,2),(2,1,2) + (2,2) with reversed/rotated stored orders; rhs sparse+dense; "
              "13 binary ops; 7 scalars x 15 ops; 9 unary ops",
     "thorough": "quick + 4^4 x 4^4 over {0,2,-3,5} on (2,2); 3^6 x 3^6 on (2,3); 2^6 x 2^6 signed zero-patterns on (3,2),(1,2,3); "
                 "2^8 x 2^8 zero patterns (positive) on (2,2,2),(2,4); re-run of the 4-cell space with left reversed / right rotated",
@@ -32,6 +32,14 @@ def _arrays(ncells, alphabet):
     return [list(t) for t in itertools.product(alphabet, repeat=ncells)]
 
 
+def _right_alphabet(alpha):
+    """Values of the right operand: equal to the left value (2,2), exactly cancelling (2,-2), same sign but
+    different (-3,-2), opposite sign (-3,2), and zero against everything."""
+    if list(alpha) == [0.0, 2.0, -3.0]:
+        return [0.0, 2.0, -2.0]
+    return list(alpha) + [-2.0]
+
+
 def _signed_pattern_arrays(ncells, positive=False):
     out = []
     for pat in itertools.product((0, 1), repeat=ncells):
@@ -41,9 +49,9 @@ def _signed_pattern_arrays(ncells, positive=False):
 
 def gen_cases(tier, seed):
     alpha3 = [0.0, 2.0, -3.0]
-    spaces = [((4,), alpha3, "full"), ((1, 4), alpha3, "full"), ((2, 2), alpha3, "full"), ((2, 1, 2), alpha3, "full")]
+    spaces = [((4,), alpha3, "full"), ((2, 2), alpha3, "full"), ((2, 1, 2), alpha3, "full")]
     if tier == "thorough":
-        spaces += [((2, 2), [0.0, 2.0, -3.0, 5.0], "full"), ((2, 3), alpha3, "full"),
+        spaces += [((1, 4), alpha3, "full"), ((2, 2), [0.0, 2.0, -3.0, 5.0], "full"), ((2, 3), alpha3, "full"),
                    ((3, 2), None, "signed"), ((1, 2, 3), None, "signed"),
                    ((2, 2, 2), None, "positive"), ((2, 4), None, "positive")]
     for shape, alpha, mode in spaces:
@@ -58,11 +66,10 @@ def gen_cases(tier, seed):
             if (mode == "full" and len(alpha) == 3) or mode != "full":
                 yield {"check": "scalar", "shape": list(shape), "A": A}
                 yield {"check": "unary", "shape": list(shape), "A": A}
-    if tier == "thorough":
-        for shape in ((2, 2), (1, 4)):
-            for A in _arrays(4, alpha3):
-                yield {"check": "binop", "shape": list(shape), "A": A, "rhs": "sparse", "Bspace": ["full", alpha3],
-                       "lorder": "reversed", "rorder": "rotated"}
+    for shape in (((2, 2), (1, 4)) if tier == "thorough" else ((2, 2),)):
+        for A in _arrays(4, alpha3):
+            yield {"check": "binop", "shape": list(shape), "A": A, "rhs": "sparse", "Bspace": ["full", alpha3],
+                   "lorder": "reversed", "rorder": "rotated"}
 
 
 def run_case(case, ctx):
@@ -153,7 +160,7 @@ def _run_binop(case, ctx):
         Bs = [[float(v) for v in case["B"]]]
     else:
         mode, alpha = case["Bspace"]
-        Bs = _arrays(n, alpha) if mode == "full" else _signed_pattern_arrays(n, positive=(mode == "positive"))
+        Bs = _arrays(n, _right_alphabet(alpha)) if mode == "full" else _signed_pattern_arrays(n, positive=(mode == "positive"))
     names = [case["op"]] if "op" in case else list(spops.BINOPS)
     for B in Bs:
         b = rm.arr(shape, B)
